@@ -3,7 +3,7 @@ import subprocess, json, os, time
 from vlib import common, coq, gobuild
 from vlib.common import coq_str, coq_bool, coq_list
 
-THEOREMS = ["C07_page_bound", "C07_unpaginated_complete", "C07_unpaginated_refines_partial", "C07_paginated_refines", "C07_pagination_complete", "C07_delimited_refines", "C07_delimited_pagination_complete", "C07_folder_refines", "C07_folder_refines_bucket", "C07_folder_pagination_complete", "C07_bookkeeping_prefix_empty", "C07_order_refuted",
+THEOREMS = ["C07_page_bound", "C07_unpaginated_complete", "C07_unpaginated_refines_partial", "C07_paginated_refines", "C07_pagination_complete", "C07_delimited_refines", "C07_delimited_pagination_complete", "C07_folder_refines", "C07_folder_refines_bucket", "C07_folder_pagination_complete", "C07_bookkeeping_prefix_empty", "C07_invalid_prefix_refines", "C07_invalid_prefix_names_no_key", "C07_order_refuted",
             "C07_pagination_cycle_refuted", "C07_keyless_directory_refuted"]
 TARGETS = ["Properties/C07.vo", "Check/WalkCheck.vo", "Model/ListApi.vo"]
 SEGS = ["a", "b", "a-", "a.x", "ab", "c", ".sgwtmp", "a!", "d", "b b", "A", ".sgwtmp_old"]
